@@ -82,7 +82,7 @@ type decRes struct {
 
 func panStr(p any) string { return "panic: " + fmt.Sprint(p) }
 
-func kEnc(via, alg string, key jwk.Key, nonce, pt, aad []byte) (r encRes) {
+func kEnc1(via, alg string, key jwk.Key, nonce, pt, aad []byte) (r encRes) {
 	k2, kb := privKey(key)
 	p, n, a := lay(pt), lay(nonce), lay(aad)
 	defer func() {
@@ -100,7 +100,7 @@ func kEnc(via, alg string, key jwk.Key, nonce, pt, aad []byte) (r encRes) {
 	return r
 }
 
-func kDec(via, alg string, key jwk.Key, nonce, ct, tag, aad []byte) (r decRes) {
+func kDec1(via, alg string, key jwk.Key, nonce, ct, tag, aad []byte) (r decRes) {
 	k2, kb := privKey(key)
 	c, n, t, a := lay(ct), lay(nonce), lay(tag), lay(aad)
 	defer func() {
@@ -124,7 +124,7 @@ type rawRes struct {
 	pan string
 }
 
-func kWrap(b cipher.Block, cek []byte) (r rawRes) {
+func kWrap1(b cipher.Block, cek []byte) (r rawRes) {
 	in := lay(cek)
 	defer func() {
 		if p := recover(); p != nil {
@@ -136,7 +136,7 @@ func kWrap(b cipher.Block, cek []byte) (r rawRes) {
 	return r
 }
 
-func kUnwrap(b cipher.Block, c []byte) (r rawRes) {
+func kUnwrap1(b cipher.Block, c []byte) (r rawRes) {
 	in := lay(c)
 	defer func() {
 		if p := recover(); p != nil {
@@ -148,7 +148,7 @@ func kUnwrap(b cipher.Block, c []byte) (r rawRes) {
 	return r
 }
 
-func kSeal(a cipher.AEAD, nonce, pt, aad []byte) (r rawRes) {
+func kSeal1(a cipher.AEAD, nonce, pt, aad []byte) (r rawRes) {
 	n, p, ad := lay(nonce), lay(pt), lay(aad)
 	defer func() {
 		if x := recover(); x != nil {
@@ -160,7 +160,7 @@ func kSeal(a cipher.AEAD, nonce, pt, aad []byte) (r rawRes) {
 	return r
 }
 
-func kOpen(a cipher.AEAD, nonce, sealed, aad []byte) (r rawRes) {
+func kOpen1(a cipher.AEAD, nonce, sealed, aad []byte) (r rawRes) {
 	n, s, ad := lay(nonce), lay(sealed), lay(aad)
 	defer func() {
 		if x := recover(); x != nil {
@@ -219,6 +219,12 @@ func wipe(b []byte) {
 
 // settle overwrites the call's input buffers and checks that no output moved.
 func settle(fn, alg string, rp replayFn, inputs [][]byte, names []string, outs ...*[]byte) {
+	defer func() {
+		recheckRetained(fn, alg)
+		if !inTwin {
+			retain(fn, alg, rp, names, outs)
+		}
+	}()
 	snaps := make([][]byte, len(outs))
 	for i, o := range outs {
 		snaps[i] = clone(*o)
@@ -259,7 +265,236 @@ func flushWipeCounters() {
 		rec.Count("wipe.calls_checked", int(wipedCalls))
 		rec.Count("wipe.input_buffers_overwritten", int(wipedInputs))
 	}
-	wipedCalls, wipedInputs = 0, 0
+	if retainedChecks > 0 {
+		rec.Count("retained.results_rechecked", int(retainedChecks))
+	}
+	if twinPairs > 0 {
+		rec.Count("retained.back_to_back_pairs_checked", int(twinPairs))
+	}
+	wipedCalls, wipedInputs, retainedChecks, twinPairs = 0, 0, 0, 0
+}
+
+// ------------------------------------------------------------ retained results
+
+// A caller keeps what kit returned. The outputs of the last retainK calls of
+// every entry point (the very slices kit returned, plus a pristine copy) stay
+// in a ring that lives across groups, so across algorithms as well as within
+// one, and are compared again after EVERY later kit call of any entry point: a
+// result that changed was written to by a later call (a pooled or otherwise
+// shared buffer). In addition every call that returned something is made a
+// second time with the same inputs and the second result is overwritten
+// completely: the first must not move (two results never share memory).
+// UnpadPKCS7 is exempt: its result is a prefix of its input by design (see kUnpad).
+const retainK = 3
+
+type retained struct {
+	fn, alg string
+	names   []string
+	live    [][]byte
+	snap    [][]byte
+	rp      replayFn
+}
+
+var (
+	ring           = map[string][]*retained{}
+	inTwin         bool
+	retainedChecks int64
+	twinPairs      int64
+)
+
+// violNoLayout reports under the plain signature: these findings are about calls made one after the other, not about the buffer layout of one call.
+func violNoLayout(sig, msg string, rp replayFn) {
+	if curJudge == nil {
+		return
+	}
+	sp := curJudge.spare
+	curJudge.spare = -1
+	curJudge.viol(sig, msg, rp)
+	curJudge.spare = sp
+}
+
+func retain(fn, alg string, rp replayFn, names []string, outs []*[]byte) {
+	r := &retained{fn: fn, alg: alg, names: names, rp: rp}
+	nonEmpty := false
+	for _, o := range outs {
+		r.live = append(r.live, *o)
+		r.snap = append(r.snap, clone(*o))
+		nonEmpty = nonEmpty || len(*o) > 0
+	}
+	if !nonEmpty {
+		return
+	}
+	q := append(ring[fn], r)
+	if len(q) > retainK {
+		q = q[len(q)-retainK:]
+	}
+	ring[fn] = q
+}
+
+func recheckRetained(laterFn, laterAlg string) {
+	for fn, q := range ring {
+		keep := q[:0]
+		for _, r := range q {
+			retainedChecks++
+			moved := -1
+			for i := range r.live {
+				if !bytes.Equal(r.live[i], r.snap[i]) {
+					moved = i
+					break
+				}
+			}
+			if moved < 0 {
+				keep = append(keep, r)
+				continue
+			}
+			r, i := r, moved
+			violNoLayout(sigOf(r.fn, r.alg, "earlier-result-changed-by-later-call"),
+				fmt.Sprintf("the %s returned by an earlier %s(%s) call, which the caller still holds, changed while a later call (%s(%s)) ran: the result lives in memory kit re-uses", r.names[i], r.fn, r.alg, laterFn, laterAlg),
+				func() map[string]any {
+					m := map[string]any{}
+					if r.rp != nil {
+						m = r.rp()
+					}
+					m["earlier_call"] = r.fn + "(" + r.alg + ")"
+					m["later_call"] = laterFn + "(" + laterAlg + ")"
+					m["result"] = r.names[i]
+					m["result_when_returned"] = hx(r.snap[i])
+					m["result_now"] = hx(r.live[i])
+					return m
+				})
+		}
+		ring[fn] = keep
+	}
+}
+
+func hasOut(pan string, outs ...[]byte) bool {
+	if pan != "" || inTwin {
+		return false
+	}
+	for _, o := range outs {
+		if len(o) > 0 {
+			return true
+		}
+	}
+	return false
+}
+
+// twinCheck: first and second are the results of two back-to-back calls with the same inputs.
+func twinCheck(fn, alg string, rp replayFn, names []string, first, second [][]byte) {
+	twinPairs++
+	snaps := make([][]byte, len(first))
+	for i, o := range first {
+		snaps[i] = clone(o)
+	}
+	for _, o := range second {
+		if o != nil {
+			wipe(o)
+		}
+	}
+	for i, o := range first {
+		if !bytes.Equal(o, snaps[i]) {
+			i := i
+			after := clone(o)
+			copy(o, snaps[i]) // give the judges the value kit returned; the finding is already recorded
+			violNoLayout(sigOf(fn, alg, "two-results-share-memory"),
+				fmt.Sprintf("%s(%s) called twice in a row: overwriting the second call's %s changed the first call's - both results point into the same memory", fn, alg, names[i]),
+				func() map[string]any {
+					m := map[string]any{}
+					if rp != nil {
+						m = rp()
+					}
+					m["result"] = names[i]
+					m["first_result_when_returned"] = hx(snaps[i])
+					m["first_result_after_second_was_overwritten"] = hx(after)
+					return m
+				})
+		}
+	}
+}
+
+func kEnc(via, alg string, key jwk.Key, nonce, pt, aad []byte) encRes {
+	r := kEnc1(via, alg, key, nonce, pt, aad)
+	if hasOut(r.pan, r.ct, r.tag) {
+		inTwin = true
+		r2 := kEnc1(via, alg, key, nonce, pt, aad)
+		inTwin = false
+		fn := "EncryptSymmetric"
+		if via == "Encrypt" {
+			fn = via
+		}
+		twinCheck(fn, alg, rpm("algorithm", alg, "key", key, "nonce", nonce, "plaintext", pt, "aad", aad), []string{"ciphertext", "tag"}, [][]byte{r.ct, r.tag}, [][]byte{r2.ct, r2.tag})
+	}
+	return r
+}
+
+func kDec(via, alg string, key jwk.Key, nonce, ct, tag, aad []byte) decRes {
+	r := kDec1(via, alg, key, nonce, ct, tag, aad)
+	if hasOut(r.pan, r.pt) {
+		inTwin = true
+		r2 := kDec1(via, alg, key, nonce, ct, tag, aad)
+		inTwin = false
+		fn := "DecryptSymmetric"
+		if via == "Decrypt" {
+			fn = via
+		}
+		twinCheck(fn, alg, rpm("algorithm", alg, "key", key, "nonce", nonce, "ciphertext", ct, "tag", tag, "aad", aad), []string{"plaintext"}, [][]byte{r.pt}, [][]byte{r2.pt})
+	}
+	return r
+}
+
+func kWrap(b cipher.Block, cek []byte) rawRes {
+	r := kWrap1(b, cek)
+	if hasOut(r.pan, r.out) {
+		inTwin = true
+		r2 := kWrap1(b, cek)
+		inTwin = false
+		twinCheck("aeskw.Wrap", "", rpm("cek", cek), []string{"wrapped key"}, [][]byte{r.out}, [][]byte{r2.out})
+	}
+	return r
+}
+
+func kUnwrap(b cipher.Block, c []byte) rawRes {
+	r := kUnwrap1(b, c)
+	if hasOut(r.pan, r.out) {
+		inTwin = true
+		r2 := kUnwrap1(b, c)
+		inTwin = false
+		twinCheck("aeskw.Unwrap", "", rpm("input", c), []string{"unwrapped key"}, [][]byte{r.out}, [][]byte{r2.out})
+	}
+	return r
+}
+
+func kSeal(a cipher.AEAD, nonce, pt, aad []byte) rawRes {
+	r := kSeal1(a, nonce, pt, aad)
+	if hasOut(r.pan, r.out) {
+		inTwin = true
+		r2 := kSeal1(a, nonce, pt, aad)
+		inTwin = false
+		twinCheck("aescbcaead.Seal", "", rpm("nonce", nonce, "plaintext", pt, "aad", aad), []string{"sealed message"}, [][]byte{r.out}, [][]byte{r2.out})
+	}
+	return r
+}
+
+func kOpen(a cipher.AEAD, nonce, sealed, aad []byte) rawRes {
+	r := kOpen1(a, nonce, sealed, aad)
+	if hasOut(r.pan, r.out) {
+		inTwin = true
+		r2 := kOpen1(a, nonce, sealed, aad)
+		inTwin = false
+		twinCheck("aescbcaead.Open", "", rpm("nonce", nonce, "sealed", sealed, "aad", aad), []string{"plaintext"}, [][]byte{r.out}, [][]byte{r2.out})
+	}
+	return r
+}
+
+func kPad(buf []byte, size int) rawRes {
+	r := kPad1(buf, size)
+	if hasOut(r.pan, r.out) {
+		inTwin = true
+		r2 := kPad1(buf, size)
+		inTwin = false
+		twinCheck("padding.PadPKCS7", "", rpm("input", buf, "block_size", size), []string{"padded buffer"}, [][]byte{r.out}, [][]byte{r2.out})
+	}
+	return r
 }
 
 // rpm builds a lazily evaluated replay record from alternating key/value arguments.
@@ -1297,7 +1532,7 @@ func runHSDirect(j *judge, g group) {
 
 // ------------------------------------------------------------ padding directly
 
-func kPad(buf []byte, size int) (r rawRes) {
+func kPad1(buf []byte, size int) (r rawRes) {
 	in := lay(buf)
 	defer func() {
 		if p := recover(); p != nil {
@@ -1328,6 +1563,7 @@ func kUnpad(buf []byte, size int) (r rawRes) {
 	if len(out) > 0 && !bytes.Equal(out, r.out) {
 		unpadShares++
 	}
+	recheckRetained("padding.UnpadPKCS7", "")
 	return r
 }
 
